@@ -217,6 +217,9 @@ fn artefacts(ctx: &Ctx) -> (String, String) {
 	if matches!(prop, Prop::C01 | Prop::C04 | Prop::C05 | Prop::C08) && wants("crl") {
 		crls::run(ctx, prop, &pool, if prop == Prop::C08 { ctx.scale(8_000, 150_000) } else { ctx.scale(2_000, 60_000) });
 	}
+	if prop == Prop::C01 && ctx.replay.as_ref().map_or(true, |r| r.workload == "remote-rsa-many") {
+		c01_remote_rsa_many(ctx);
+	}
 	if prop == Prop::C01 && ctx.replay.is_none() {
 		c01_faults(ctx);
 	}
@@ -265,6 +268,65 @@ fn c05_serials(ctx: &Ctx, _pool: &[crate::keys::PoolKey]) {
 			Err(p) => ctx.violation("c05:cert-panic", &case, "default params", &p),
 		}
 	});
+}
+
+/// C01: what a remote signer returns is embedded as it is. PKCS#1 v1.5 signatures are fixed-length octet
+/// strings and about one in 256 begins with a zero octet (which an INTEGER-minded code path would strip):
+/// enough artefacts are signed by remote RSA keys that such signatures occur (observed count in the evidence).
+#[cfg(all(feature = "crypto", feature = "ossl"))]
+fn c01_remote_rsa_many(ctx: &Ctx) {
+	use crate::ctx::CaseId;
+	use crate::keys::{remote, Fault};
+	use crate::ossl::{self, SigAlg};
+	let n = ctx.scale(2_400, 24_000);
+	for (ki, sig) in [SigAlg::RsaSha256, SigAlg::RsaSha384, SigAlg::RsaSha512].into_iter().enumerate() {
+		let der = ossl::rsa_pkcs8(2048);
+		let spki = match ossl::spki_of_private(&der) {
+			Ok(s) => s,
+			Err(e) => return ctx.inconclusive(&format!("oracle cannot read its own RSA key: {}", e)),
+		};
+		let key = remote("remote-rsa-many", der, sig, Fault::None);
+		let mut p = crate::spec::ParamSpec::minimal();
+		p.is_ca = crate::spec::IsCaSpec::Ca(None);
+		let issuer = match crate::guard(|| p.to_rcgen(None).self_signed(&key.kp)) {
+			Ok(Ok(c)) => c,
+			other => return ctx.violation("c01:issuer-setup", &CaseId::new("remote-rsa-many", ctx.seed, 0), &format!("{:?}", sig), &format!("{:?}", other.map(|r| r.map(|_| ()).map_err(|e| e.to_string())))),
+		};
+		crate::ctx::par_for(n / 3, ctx.threads, |i| {
+			let case = CaseId::new("remote-rsa-many", ctx.seed, (ki as u64) << 32 | i);
+			if let Some(r) = &ctx.replay {
+				if r.workload != "remote-rsa-many" || r.index != case.index {
+					return;
+				}
+			}
+			let crl = rcgen::CertificateRevocationListParams {
+				this_update: rcgen::date_time_ymd(2024, 1, 1),
+				next_update: rcgen::date_time_ymd(2024, 2, 1),
+				crl_number: rcgen::SerialNumber::from(ctx.seed.wrapping_mul(1_000_003).wrapping_add(i)),
+				issuing_distribution_point: None,
+				revoked_certs: vec![],
+				key_identifier_method: rcgen::KeyIdMethod::Sha256,
+			};
+			let text = format!("{:?} remote key, CRL number {}", sig, ctx.seed.wrapping_mul(1_000_003).wrapping_add(i));
+			ctx.count("eval:remote_rsa_artefacts");
+			match crate::guard(|| crl.signed_by(&issuer, &key.kp)) {
+				Err(pn) => ctx.violation("c01:crl-panic", &case, &text, &pn),
+				Ok(Err(e)) => ctx.violation("c01:crl-refused", &case, &text, &e.to_string()),
+				Ok(Ok(c)) => match crate::x509::split_signed_raw(c.der(), true) {
+					Err(e) => ctx.violation("c01:crl:undecodable", &case, &text, &e),
+					Ok((tbs, _, sigv)) => {
+						if sigv.first() == Some(&0) || sigv.len() != 256 {
+							ctx.count("outcome:remote-rsa:signature-with-leading-zero-or-short");
+						}
+						match ossl::verify_raw(sig, &spki, &tbs, &sigv) {
+							Ok(true) => {},
+							other => ctx.violation("c01:crl:signature-invalid", &case, &text, &format!("signature of {} octets (first octet {:?}) does not verify: {:?}", sigv.len(), sigv.first(), other)),
+						}
+					},
+				},
+			}
+		});
+	}
 }
 
 /// C01: a failing remote signer must yield an error and no artefact
